@@ -108,9 +108,15 @@ CHECKS.update({
         technique="regex-to-SMT language lemmas on the real patterns + bounded stand-in (grammar-generated texts)"),
  "C04-old": bounded_only("texts generated from the deb-changelog(5) grammar with known components are parsed strictly with warnings as errors; "
         "str() must be byte-identical and the blocks must expose the written components;", "DESIGN.md §5 C04"),
- "C07": bounded_only(".deb files assembled in memory over 5x5 compressions, member orders, script subsets, md5sums with spaces in names, binary "
-        "contents, dot files are read back in three spellings; structurally defective member sets must raise DebError;", "DESIGN.md §5 C07",
-        "tarfile and the compression codecs are external libraries"),
+ "C07": dict(bounded_only("", "DESIGN.md §5 C07"),
+        text="The rejection clause is proved for all member-name lists from the AST of the real DebFile.__init__ (part discovery with the "
+             "nested compressed_part_name; sets as finite conditional sets): it returns normally exactly when debian-binary and exactly one "
+             "candidate per part are present, raises DebError otherwise, never KeyError, and stores members with a candidate name - "
+             "relative to assumed contracts of the ArFile interface which are what C06 proves. Reading back control fields, scripts, "
+             "md5sums and contents in the three spellings goes through tarfile and the compressors (external) and is decided by a bounded "
+             "stand-in: .deb files assembled in memory over 5x5 compressions, member orders, script subsets, names with spaces, binary "
+             "contents; structurally defective member sets.",
+        technique="contract-based deductive verification of the part-discovery code (path-wise VCs from the real AST, SMT) + bounded stand-in"),
  "C08": dict(bounded_only("", "DESIGN.md §5 C08"),
         text="validate_input (exactly which values it accepts, ValueError otherwise) and Deb822.__setitem__ (a rejected value leaves the "
              "paragraph unchanged) are verified from their AST. The anti-drift lemmas between the value validator and the parser's patterns are PROVED for all lines of the stated character "
@@ -123,8 +129,14 @@ CHECKS.update({
         "byte spans of the other fields;", "DESIGN.md §5 C11"),
  "C12": bounded_only("for every class with structured fields x subsets of those fields x record lists, the dump must be exactly the documented "
         "text (size column aligned to 16 / longest present) and re-parse to the same records;", "DESIGN.md §5 C12"),
- "C13": bounded_only("generated relation structures covering every combination of the optional parts and up to 4 restriction groups are formatted, "
-        "parsed back (no warning allowed) and re-formatted;", "DESIGN.md §5 C13"),
+ "C13": dict(bounded_only("", "DESIGN.md §5 C13"),
+        text="Proved for all formatted atoms by SMT on the real __dep_RE: every atom that PkgRelation.str can write matches the pattern "
+             "(no 'cannot parse' fallback) and each of the six named groups captures exactly the part that was written, absent when it "
+             "was not written (capture lemmas over every way the pattern can match). The splitting at ',' and '|', the architecture and "
+             "restriction sub-parsers and the printer are decided by a bounded stand-in: generated relation structures covering every "
+             "combination of the optional parts are formatted, parsed back (no warning allowed), re-formatted, and re-parsed after the "
+             "first result was edited.",
+        technique="regex-to-SMT match and capture lemmas on the real pattern + bounded stand-in (generated structures)"),
  "C15": dict(bounded_only("", "DESIGN.md §5 C15"),
         text="Strictness consistency is established deductively: an AST data-flow check shows that `strict` reaches nothing but the second "
              "argument of _parse_error in the real parse_changelog, and _parse_error is verified to raise when strict and to warn exactly "
